@@ -16,6 +16,8 @@ LAYOUTS = {
     "2+2": [0, 0, 1, 1],
     "4+0": [0, 0, 0, 0],
     "5+3": [0, 0, 0, 0, 0, 1, 1, 1],
+    "12+0": [0] * 12,
+    "12+2": [0] * 12 + [1, 1],
 }
 
 STUBS = [
